@@ -21,6 +21,9 @@ mod proposals;
 #[path = "/verif/harness/sequencer/rollupdata.rs"]
 mod rollupdata;
 
+#[path = "/verif/harness/sequencer/ibc_mc.rs"]
+mod ibc_mc;
+
 use std::{
     collections::{
         BTreeMap,
